@@ -21,6 +21,7 @@ def run(tier, seed):
     netcommon.mc_and_replay(v, wd, "randr", 300 if tier == "quick" else 3000, False, workers=12, extra=["-seed", str(seed + 3000)])
     # the index against every small pattern: one-rule engines vs the rule's own matcher, and Tokens!IndexComplete in TLC
     netcommon.index_on_pattern_universe(v, wd, 3 if tier == "quick" else 4, workers=8 if tier == "quick" else 14)
+    vlib.scale_stage(v, wd, "C01")
     return v.finish("model_checking", "lists of <= %d rules" % k, exhaustive=True)
 
 
